@@ -715,6 +715,7 @@ class World(object):
         L = self.ledger
         if x.kind == "bogus":
             return
+        self.last_done = x
         obs = (rec or {}).get("status")
         spec_t = self.p["tasks"].get(x.task) or {}
         if x.items is not None:
@@ -771,6 +772,7 @@ class World(object):
                 # (the retry condition is only evaluated while the workflow is active)
                 L.runtime_errors.append((x.xid, "retry"))
         L.on_completed(x, obs, result, wfb)
+        self.last_done = x
         if x.items is not None and nctx_before is not None and x.items.get("n"):
             # the task result seen downstream lists the item results in item order
             new_ctx = self.snap["state"]["contexts"][nctx_before:]
@@ -842,6 +844,7 @@ class World(object):
                     self.bump("probe_pause_zero_inflight")
         elif status in ("canceling", "canceled"):
             if self.status in ("canceling", "canceled"):
+                self.canceled_by_request = (self.status == "canceled" and wfb != "canceled")
                 self.cancel_req = True
                 self.ledger.cancel_requested = True
                 self.bump("fault_cancel")
@@ -1055,14 +1058,20 @@ class World(object):
     def finish_if_completed(self, force=False):
         if self.c is None:
             return
-        if self.status in lang.COMPLETED and (not self.rendered or force):
+        if self.status in lang.COMPLETED:
+            # (H7) the engine renders the output whenever a handler leaves the workflow completed
+            first = not self.rendered
             self.rendered = True
-            try:
-                self.call("render_workflow_output")
-            finally:
-                pass
+            before = self.snap.get("output") if self.snap else None
+            st_before = self.status
+            self.call("render_workflow_output")
             self.after_call("render")
-            self.check_output()
+            if first or force:
+                self.check_output()
+            elif before and st_before == self.status and not jeq(before, self.snap.get("output")):
+                # once reported with a terminal status the output is part of that final outcome
+                self.report("C04", "output_final", "the output reported with status %s changed afterwards: %s -> %s"
+                            % (self.status, canon(before)[:150], canon(self.snap.get("output"))[:150]))
 
     def check_state(self, tag):
         """Invariants that hold at every point where the harness bookkeeping is consistent."""
@@ -1130,6 +1139,8 @@ class World(object):
     expect_release = None
     terminal_at_offer = None
     retry_cut = False
+    last_done = None
+    canceled_by_request = False
     kf_items_loop = None
     forced_failed = False
     held_back = 0
@@ -1452,6 +1463,46 @@ class World(object):
                                                                           "terminal_merge"]
                     self.report("C06", "output_rendered", "output %s = %s, expected %s from the terminal contexts"
                                 % (name, canon(got)[:120], canon(exp)[:120]), tags=tags, kf=kf)
+        if self.cancel_req and self.status == "canceled" and not self.accepted_rerun and self.last_done is not None:
+            # "still renders its output from what was published": the contexts of the executions
+            # after which nothing ran, plus the one whose report completed the cancellation
+            pairs = L.leaves(with_seq=True)
+            at_rest = self.canceled_by_request
+            if not at_rest or not pairs:
+                # (when the request itself completed the cancellation no task event followed it,
+                # and the engine flags executions terminal only on task events)
+                if not any(r is self.last_done.ref for _, r in pairs):
+                    pairs = sorted(pairs + [(getattr(self.last_done, "seq", 10 ** 9), self.last_done.ref)], key=lambda e: e[0])
+            refs = [r for _, r in pairs]
+            fwd = None
+            for r in refs:
+                fwd = r if fwd is None else L.merge_ctx(fwd, r)
+            bwd = None
+            for r in reversed(refs):
+                bwd = r if bwd is None else L.merge_ctx(bwd, r)
+            fv, bv = fwd.values(), bwd.values()
+            for name, vnode in spec_out:
+                if vnode[0] != "ctx":
+                    continue
+                v = vnode[1]
+                if v in fwd.racy or v in bwd.racy or not jeq(fv.get(v), bv.get(v)):
+                    continue
+                got = (out or {}).get(name, "<absent>")
+                if not jeq(fv.get(v), got):
+                    f = self.p.get("_features") or set()
+                    kf, tags = None, []
+                    if "dict_republish" in f and (isinstance(got, dict) or isinstance(fv.get(v), dict)):
+                        kf, tags = "KF-dict-republish-deep-merge", ["dict_republish"]
+                    elif len(refs) > 1 and stale_explains(v, got, fwd, refs):
+                        kf, tags = "KF-stale-inherited-value-at-merge", ["stale_inherited_value_at_merge", "terminal_merge"]
+                    elif at_rest and not any(t.get("term") for t in self.snap["state"]["sequence"]):
+                        # precise signature: the cancel request found nothing in flight and turned the
+                        # workflow canceled by itself; no task event ran after it, so no execution is
+                        # flagged terminal and the output falls back to the initial context
+                        kf, tags = "KF-cancel-at-rest-output-from-initial-context", ["cancel_with_nothing_in_flight"]
+                    self.report("C10", "output_rendered", "canceled workflow output %s = %s, but %s was published on the way "
+                                "to the executions after which nothing ran" % (name, canon(got)[:100], canon(fv.get(v))[:100]),
+                                tags=tags, kf=kf)
         if self.cancel_req and self.status == "canceled":
             written = {}
             for d in L.deltas:
